@@ -391,9 +391,13 @@ impl<K: Hash + Eq, V, FH: BuildHasher, RH: BuildHasher> Cache<K, V>
                         let ent_ptr = ent.as_mut();
                         swap_value(&mut v, ent_ptr);
                     }
-                    self.protected
-                        .put_or_evict_nonnull(ent)
-                        .map(|evicted_ent| self.probationary.put_nonnull(evicted_ent))
+                    // an entry pushed out of the protected segment is demoted to the
+                    // probationary segment; nothing leaves the cache, so the result of the
+                    // put is always the update of the existing key
+                    if let Some(evicted_ent) = self.protected.put_or_evict_nonnull(ent) {
+                        self.probationary.put_nonnull(evicted_ent);
+                    }
+                    None
                 })
                 .unwrap_or(PutResult::<K, V>::Update(v));
         }
